@@ -652,10 +652,11 @@ class Twin:
                     "lc": text_arg(op.get("lc", "Water")),
                     "label": label_arg(oplabel),
                     "labelok": not (isinstance(oplabel, str) and ";" in oplabel),
+                    "foreign": op.get("vols_present") in ("tuple", "ndarray"),
                 }
                 self._a_pending = a
                 wells = shape_wells(op["wells"], wp)
-                vols = shape_vols(op["vols"], unit, "list", nk)
+                vols = shape_vols(op["vols"], unit, op.get("vols_present", "list"), nk)
                 tips = [tip_value(t) for t in op["tips"]]
                 if op.get("tips_present") == "tuple":
                     tips = tuple(tips)
